@@ -7,7 +7,7 @@ mod corpus;
 mod trees;
 
 use std::collections::HashMap;
-pub struct Args(HashMap<String, String>);
+pub struct Args(pub HashMap<String, String>);
 impl Args {
     pub fn get(&self, k: &str) -> Option<&str> {
         self.0.get(k).map(|s| s.as_str())
@@ -35,6 +35,33 @@ fn main() {
         "trees" => trees::run(&args),
         "trees-vec" => trees::run_vectors(&args),
         "conform" => corpus::run(&args),
+        "replay" => {
+            // schema_tree events are rebuilt from the recorded tree and path; conform events are re-generated and matched by type name
+            let inp = std::fs::read_to_string(args.get("in").expect("--in")).expect("read");
+            let outp = args.str("out", "/dev/stdout");
+            let mut lines = vec![];
+            for line in inp.lines().filter(|l| !l.trim().is_empty()) {
+                let e: serde_json::Value = serde_json::from_str(line).expect("json");
+                if e["op"] == "schema_tree" {
+                    let t = trees::t_from(&e["tree"]);
+                    let path = trees::ub(&e["path"]);
+                    lines.push(trees::tree_event(&t, &path, "replay").to_string());
+                } else if e["op"] == "conform" {
+                    let tmp = format!("{outp}.all");
+                    let mut m = std::collections::HashMap::new();
+                    m.insert("out".to_string(), tmp.clone());
+                    m.insert("reps".to_string(), "1".to_string());
+                    corpus::run(&Args(m));
+                    let all = std::fs::read_to_string(&tmp).unwrap();
+                    let _ = std::fs::remove_file(&tmp);
+                    let hit = all.lines().find(|l| serde_json::from_str::<serde_json::Value>(l).map(|x| x["ty"] == e["ty"] && x["tree"]["c"] == e["tree"]["c"] && x["tree"]["i"] == e["tree"]["i"]).unwrap_or(false));
+                    lines.push(hit.map(|s| s.to_string()).unwrap_or(line.to_string()));
+                } else {
+                    lines.push(line.to_string());
+                }
+            }
+            std::fs::write(outp, lines.join("\n") + "\n").unwrap();
+        }
         _ => panic!("unknown subcommand {cmd}"),
     }
 }
